@@ -27,6 +27,8 @@ CLAIMS = {
              "lattice (two wrong variants are rejected). TLC-generated scenarios (1..4 stops incl. repeated positions, "
              "17 geometries, 4 repeat modes, 12 transforms: affine, shear, w = 2, perspective in x only / y only / "
              "both, w crossing zero; narrow and float destinations; 4 rows per composite call) and the exhaustive "
+             "repeat-switch histories on one image object (every ordered pair and A,B,A of the four repeat modes, each "
+             "composite judged under the mode in force: stale sentinel stops must not show), the exhaustive "
              "geometry x transform grid (so that every iterator branch - the linear one-scanline shortcut, the "
              "affine and projective branches of all three kinds - is reached where a wrong branch changes pixels) plus "
              "seeded safety scenarios (unsorted/garbage stops, degenerate geometry, singular transforms) run on the real "
@@ -74,6 +76,32 @@ def g_line(claim, kind, repeat, wide, stops, geom, m, dw=DW, dh=DH):
     toks += [1] + list(m) if m else [0]
     toks += [dw, dh]
     return " ".join(str(t) for t in toks)
+
+
+def history_scenarios():
+    """repeat-switch histories on ONE image object: create; set_repeat(A); composite; set_repeat(B); composite
+       [; set_repeat(A); composite].  Every composite is judged by the specification under the repeat mode in force
+       (the specification has no history: sentinels left over from an earlier mode must not show).  Stops inside
+       (1/4, 1/2, 3/4) and a parameter range that extends beyond them on both sides, so that the sentinels matter."""
+    F, Hh = 65536, 32768
+    stops = [[16384, 65535, 65535, 0, 0], [32768, 32896, 0, 65535, 0], [49152, 65535, 0, 0, 65535]]
+    geoms = [("linear", [8 * Hh, 0, 16 * Hh, 0]),                       # t = (x + .5 - 4) / 4: -0.9 .. 1.9
+             ("radial", [12 * Hh, 2 * Hh, 0, 12 * Hh, 2 * Hh, 12 * Hh]),  # concentric, r 0 -> 6: t = dist / 6
+             ("conical", [12 * Hh, 2 * Hh, 0])]
+    modes = ["NONE", "NORMAL", "PAD", "REFLECT"]
+    out = []
+    for kind, g in geoms:
+        for a in modes:
+            for b in modes:
+                if a == b:
+                    continue
+                for wide, hist in ((0, [a, b]), (0, [a, b, a]), (1, [a, b])):
+                    toks = ["H", 1, KIND[kind], len(hist)] + [REPEAT[r] for r in hist] + [wide, len(stops)]
+                    for st in stops:
+                        toks += st
+                    toks += [len(g)] + g + [0, DW, 2]
+                    out.append(" ".join(str(t) for t in toks))
+    return out
 
 
 def safety_scenarios(rng, n):
@@ -279,6 +307,10 @@ def run(prop, args):
     execs = []
     for i, s in enumerate(scns):
         execs.append(["R c%d" % i, g_line(1, s["kind"], s["repeat"], s["wide"], s["stops"], s["g"], s["m"])])
+    hist = history_scenarios()
+    for i, line in enumerate(hist):
+        execs.append(["R h%d" % i, line])
+    chk.extra["repeat_switch_histories"] = len(hist)
     nsafe = 150 if quick else 4000
     for i, line in enumerate(safety_scenarios(rng, nsafe)):
         execs.append(["R s%d" % i, line])
